@@ -1076,7 +1076,7 @@ func genC02(tier string, seed uint64, n int, e *Emitter) {
 	if n == 0 {
 		n = 300
 		if tier == "thorough" {
-			n = 30000
+			n = 4000
 		}
 	}
 	// corpus: the documented finding and its neighbours, on the fixed schema
